@@ -123,17 +123,38 @@ def analyse_unit(unit, gen_dir, tier, canary=False):
     extracted body calls, typically introduced by a change), they are auto-included without contract and the run
     is repeated (at most 3 rounds)."""
     extra = []
+    dropped = set()
     ur = None
-    for _round in range(7):
-        ur = _analyse_unit(unit, gen_dir, tier, canary, tuple(extra))
-        if not ur.frontend_errors or _round == 6:
+    for _round in range(9):
+        ur = _analyse_unit(unit, gen_dir, tier, canary, tuple(extra), tuple(sorted(dropped)))
+        if not ur.frontend_errors or _round == 8:
             break
+        # an auto-included helper whose own BODY does not compile in the unit (it calls further functions the unit does not have,
+        # or uses constructs outside the subset) is made opaque first - its callees are then not needed at all
+        bad0 = set()
+        for ln in getattr(ur, "frontend_lines", []):
+            for f in ur.gen.functions:
+                if f["gen_start"] <= ln <= f["gen_end"] and any(e[2] == f["name"] and not (len(e) > 4 and e[4]) for e in extra):
+                    bad0.add(f["name"])
+        if bad0:
+            extra = [(e[0], e[1], e[2], e[3], True) if e[2] in bad0 else e for e in extra]
+            continue
         names = set()
         for fe in ur.frontend_errors:
             for pat in MISSING_PATS:
                 names.update(pat.findall(fe))
         added = False
         files = sorted({f["file"] for f in ur.gen.functions})
+        # then every other source file of the two crates (a helper added to another module, e.g. a new method of a type that
+        # this unit keeps abstract); the unit's own files come first
+        others = []
+        for sub in ("numbat/src", "numbat-cli/src"):
+            for dp, _dn, fns in os.walk(os.path.join(extract.REPO, sub)):
+                for fn_ in sorted(fns):
+                    rel_ = os.path.relpath(os.path.join(dp, fn_), extract.REPO)
+                    if fn_.endswith(".rs") and rel_ not in files:
+                        others.append(rel_)
+        files = files + sorted(others)
         for name in sorted(names):
             if any(e[2] == name for e in extra):
                 continue
@@ -144,7 +165,7 @@ def analyse_unit(unit, gen_dir, tier, canary=False):
                 except AnchorLost:
                     hit = None
                 if hit:
-                    props = sorted({p for f in ur.gen.functions if f["file"] == rel for p in f["props"]})
+                    props = sorted({p for f in ur.gen.functions if f["file"] == rel for p in f["props"]}) or sorted({p for f in ur.gen.functions for p in f["props"]})
                     extra.append((rel, hit[0], name, props))
                     added = True
                     break
@@ -157,17 +178,28 @@ def analyse_unit(unit, gen_dir, tier, canary=False):
                     if f["gen_start"] <= ln <= f["gen_end"] and any(e[2] == f["name"] and not (len(e) > 4 and e[4]) for e in extra):
                         bad.add(f["name"])
             if not bad:
-                break
+                # a compile error inside a function under contract may come from its PROOF ANNOTATIONS (a hint or an invariant
+                # that names a local the changed body no longer has): verify that function without them. If the error was
+                # the body's own, it stays (frontend => undecided); if not, the function's failures read `hint-lost`
+                stale = set()
+                for ln in getattr(ur, "frontend_lines", []):
+                    for f in ur.gen.functions:
+                        if f["gen_start"] <= ln <= f["gen_end"] and f.get("annotated") and f["name"] not in dropped:
+                            stale.add(f["name"])
+                if not stale:
+                    break
+                dropped |= stale
+                continue
             extra = [(e[0], e[1], e[2], e[3], True) if e[2] in bad else e for e in extra]
     ur.auto_included = [f"{e[0]}::{e[2]}" for e in extra]
     ur.opaque_helpers = [e[2] for e in extra if len(e) > 4 and e[4]]
     return ur
 
 
-def _analyse_unit(unit, gen_dir, tier, canary=False, extra_fns=()):
+def _analyse_unit(unit, gen_dir, tier, canary=False, extra_fns=(), drop_hints=()):
     """generate + run verus on one unit; returns UnitResult"""
     tp = os.path.join(ROOT, "contracts", unit + ".vx")
-    g = extract.generate(unit, tp, canary=canary, extra_fns=extra_fns)
+    g = extract.generate(unit, tp, canary=canary, extra_fns=extra_fns, drop_hints=drop_hints)
     name = unit + ("_canary" if canary else "")
     path = os.path.join(gen_dir, name + ".rs")
     text = "\n".join(g.lines)
@@ -544,7 +576,15 @@ def main(argv):
             if w:
                 o["witness"] = w
                 continue
+            o["soft"] = True
             undecided.append(f"hint-lost unit={o.get('unit')}: {o['id']} fails, but proof annotations of {f['name']} could not be placed ({'; '.join(f['hint_lost'])[:200]})")
+    # an auto-included helper has NO contract, in particular no precondition: when its own body fails an obligation (typically
+    # a callee's precondition that the template would have supplied as the helper's `requires`) that means "needs contract"
+    for o in all_obs:
+        f, ur_ = o.get("fn"), o.get("ur")
+        if o["failed"] and f is not None and ur_ is not None and any(h.split("::")[-1] == f["name"] for h in getattr(ur_, "auto_included", []) or []):
+            o["soft"] = True
+            undecided.append(f"helper-without-contract unit={o.get('unit')}: {o['id']} fails inside the auto-included helper {f['name']}, which has no contract (no precondition to rely on)")
     # a failing obligation in a function that CALLS a helper which was auto-included without contract (its result is
     # unconstrained for the caller) is not evidence of a violation either: "needs contract", not "bug" -> undecided
     for o in all_obs:
@@ -561,9 +601,11 @@ def main(argv):
             if w:
                 o["witness"] = w
                 continue
+            o["soft"] = True
             undecided.append(f"helper-without-contract unit={o.get('unit')}: {o['id']} fails, but {f['name']} calls {', '.join(sorted(set(used)))} which is not under contract (auto-included, result unconstrained)")
     wall = time.time() - t0
-    failed = [o for o in all_obs if o["failed"]]
+    # `soft` failures (hint-lost / helper-without-contract without a reproduced witness) are undecided, not violations
+    failed = [o for o in all_obs if o["failed"] and not o.get("soft")]
     # ---- known findings ----
     kf_lines = []
     new_viol = []
@@ -618,13 +660,18 @@ def main(argv):
     # (no `evaluations` / `distinct_nontrivial`: nothing is sampled here - the counts this run measures are the
     # obligations generated and discharged, listed one by one under `samples`)
 
-    if undecided:
+    if undecided and not new_viol:
         ev["coverage"]["discharged"] = 0 if level == "proof" else ev["coverage"]["discharged"]
         with open(ev_path, "w") as f:
-            json.dump(ev, f, indent=1)
+            json.dump(ev, f, indent=1, default=str)
         for u in undecided:
             print(f"UNDECIDED property={prop} reason={u}")
         return 2
+    # an obligation that FAILS in a unit the verifier did process is a violation whatever remained undecided elsewhere
+    # (another unit the front end rejected, another function whose hints were lost): units and functions are verified
+    # independently, so the undecided parts take nothing away from the failed obligation. They are listed as notes.
+    for u in undecided:
+        print(f"NOTE property={prop} undecided-elsewhere: {u}")
     with open(ev_path, "w") as f:
         json.dump(ev, f, indent=1, default=str)
     for ln in kf_lines:
